@@ -9,6 +9,8 @@ pub const OPERANDS: &[&str] = &[
     "A", "A$", "A%", "B#", "A(1)", "A$(1)", "R.F", "R", "CHR", "CHR$(65)", "LEN", "LEN(A$)", "1", "1.5",
     "70000", "\"s\"", "(1)", "(A$)", "-A", "A + 1", "A$ + \"x\"", "F(1)", "G$(\"x\")", "ERR", "UCASE$(5)", "",
     "A(1).F", "R.S",
+    // whole arrays, and undefined functions of both kinds
+    "A()", "A$()", "NOF(1)", "NOF$(1)",
 ];
 
 /// Declarations placed before every instantiated template, so that the names of
